@@ -65,6 +65,34 @@ def build_skel(spec):
                 yield gen.cfg_index(0, style), code, None, (si, depth)
 
 
+HAZARD_CHARS = ['"', "\\", "/", "*", "(", ")", "!", ":", ";", ",", "=", "'", "#", "é", "名", "😀", "\u2028", "\r", "\x00", "\ufeff", "\u200e", "0", "9", " ", "\n"]
+PAIR_CHARS = ['"', "\\", "/", "*", "😀", "\r"]
+
+
+def char_edits(text, chars):
+    for i in range(len(text) + 1):
+        if i < len(text):
+            yield text[:i] + text[i + 1:]
+        for c in chars:
+            yield text[:i] + c + text[i:]
+            if i < len(text) and text[i] != c:
+                yield text[:i] + c + text[i + 1:]
+
+
+def build_chars(spec):
+    """character-level mutation of the skeleton statements: every deletion, insertion and replacement with every hazard character at
+    every character position (depth 2: every pair of such edits with a smaller character set)"""
+    for si, depth, lo, hi in spec:
+        base = "".join(SKELETONS[si])
+        if depth == 1:
+            gen_ = char_edits(base, HAZARD_CHARS)
+        else:
+            gen_ = (e2 for e1 in char_edits(base, PAIR_CHARS) for e2 in char_edits(e1, PAIR_CHARS))
+        for code in itertools.islice(gen_, lo, hi):
+            for style in (False, True):
+                yield gen.cfg_index(0, style), code, None, (si, depth)
+
+
 def _eval_nopanic(args):
     modname, fname, spec, paths = args
     mod = __import__(modname)
@@ -484,6 +512,25 @@ def run(tier, v):
         v.violation(panic_sig(f["detail"], f["code"]) if f["class"] == "panic" else "entry-precondition",
                     {"input": f["code"], "detail": f["detail"]}, replay_files={"case.rs": f["code"]})
     v.sample({"skeleton_edit": "".join(SKELETONS[2][:3] + ["😀"] + SKELETONS[2][3:])})
+    # (ii-a) the same skeletons mutated character by character
+    specs = []
+    for si, sk in enumerate(SKELETONS):
+        n1 = sum(1 for _ in char_edits("".join(sk), HAZARD_CHARS))
+        for lo in range(0, n1, 4000):
+            specs.append([(si, 1, lo, lo + 4000)])
+        if tier == "thorough" and si < 6:
+            n2 = sum(sum(1 for _ in char_edits(e1, PAIR_CHARS)) for e1 in char_edits("".join(sk), PAIR_CHARS))
+            for lo in range(0, n2, 20000):
+                specs.append([(si, 2, lo, lo + 20000)])
+    agg = run_nopanic(pool, "c17", "build_chars", specs, paths)
+    v.count(agg["n"])
+    v.coverage["distinct_nontrivial"] += agg["distinct"]
+    v.subspace("14 skeleton statements x every single character edit (delete; insert / replace with each of %d hazard characters) at every position%s x style"
+               % (len(HAZARD_CHARS), "; every pair of edits over %d characters for the first 6" % len(PAIR_CHARS) if tier == "thorough" else ""),
+               agg["n"], exhaustive=True, distinct_inputs=agg["distinct"], inputs_with_entries=agg["with_entries"])
+    for f in agg["fails"]:
+        v.violation(panic_sig(f["detail"], f["code"]) if f["class"] == "panic" else "entry-precondition",
+                    {"input": f["code"], "detail": f["detail"]}, replay_files={"case.rs": f["code"]})
     # (ii-b) window/buffer boundary x UTF-8 alignment sweep
     kmax = 20 if tier == "thorough" else 17
     aspace = list(align_space(kmax))
